@@ -253,7 +253,8 @@ where T::NotNan: Clone + Ord + num_traits::NumOps + num_traits::FromPrimitive + 
         Err(()) => ("panic", vec![], vec![]),
     };
     out.push(json!({"ev": "qskip", "ty": T::NAME, "strat": strat, "axis": axis, "g": g, "lay": lay.to_json(), "lanes": lanes, "qis": qis,
-        "out": outc, "rshape": rshape, "res": res, "mem0": mem0, "mem1": mem1, "missing": MISSING}));
+        "out": outc, "rshape": rshape, "res": res, "mem0": mem0, "mem1": mem1, "missing": MISSING,
+        "badq": qspec.get("bad").and_then(|x| x.as_bool()).unwrap_or(false)}));
 }
 
 pub fn run(case: &Value, params: &Params, out: &mut Vec<Value>) {
@@ -327,6 +328,8 @@ pub fn gen(seed: u64, count: usize, tier: &str, params: &Params) -> Vec<Value> {
                     if miss { MISSING } else if infs && rng.chance(1, 4) { if rng.chance(1, 2) { INFV } else { -INFV } } else { rng.range(-40, 40) } }).collect();
                 let b = *rng.pick(&[1i64, 2, 3, 4, 5, 8, 10]);
                 let q = json!({"a": rng.range(0, b), "b": b, "u": *rng.pick(&[0i64, 0, 1, -1])});
+                // one request in ten lies outside [0, 1]: rejected whatever the data hold
+                let q = if rng.chance(1, 10) { if rng.chance(1, 2) { json!({"a": 3, "b": 2, "u": 0, "bad": true}) } else { json!({"a": -1, "b": 4, "u": 0, "bad": true}) } } else { q };
                 let script: Vec<i64> = if rng.chance(1, 3) { (0..rng.below(6)).map(|_| rng.below(1000) as i64).collect() } else { vec![] };
                 cases.push(json!({"ev": "qskip", "ty": ty, "strat": strat, "lay": lay.to_json(),
                                   "axis": axis, "data": data, "q": q, "pv": script}));
